@@ -1,4 +1,5 @@
 SPECIFICATION Spec
+CONSTANT MatchMode = "search"
 CONSTANT StoreLiteral = TRUE
 INVARIANT Emit
 CHECK_DEADLOCK FALSE
